@@ -101,11 +101,14 @@ type LQRec struct {
 }
 
 type KeysetInfo struct {
-	ID     string
-	Fee    uint64 // ppk, harness knowledge (what the operator configured)
-	FeeOK  bool
-	Active bool
-	Keys   map[uint64]string
+	ActiveFrom  int // generous window of event sequence numbers in which the keyset may have been active
+	ActiveUntil int // 0 = still active
+	ID          string
+	Fee         uint64 // ppk, harness knowledge (what the operator configured)
+	FeeOK       bool
+	Active      bool
+	Keys        map[uint64]string
+	seenActive  bool
 }
 
 type MintBook struct {
@@ -126,6 +129,8 @@ type Book struct {
 	M          map[string]*MintBook
 	Violations []Violation
 	seen       map[string]bool
+	// TrackActive: signatures must be on a keyset that was active while the request ran (C09)
+	TrackActive bool
 }
 
 func NewBook(w *World) *Book { return &Book{w: w, M: map[string]*MintBook{}, seen: map[string]bool{}} }
@@ -187,6 +192,16 @@ func outputsKey(outs []JOutput) string {
 // Ingest is called by the transport for every completed exchange (also when the
 // response was subsequently lost on the way to the client).
 func (b *Book) Ingest(o *HTTPObs) {
+	if b.w.ShapeCheck {
+		b.w.S.Stats["c20_shape_checked"]++
+		for _, msg := range CheckShape(o) {
+			pth := o.Path
+			if i := strings.LastIndexByte(pth, '/'); i > 12 {
+				pth = pth[:i]
+			}
+			b.Violate("C20.shape", o.Method+" "+pth, "%s %s -> %d: %s", o.Method, cut(o.Path, 40), o.Status, msg)
+		}
+	}
 	if !o.Executed {
 		// the request may still have had effects (crash mid-way): remember melt attempts
 		if o.Method == "POST" && strings.HasPrefix(o.Path, "/v1/melt/bolt11") {
@@ -248,8 +263,39 @@ func (b *Book) recordSigs(m *MintBook, o *HTTPObs, outs []JOutput, sigs []JSig, 
 			b.Violate("C02.sig_amount", via, "%s signed amount %d for an output of amount %d", via, sg.Amount, out.Amount)
 		}
 		b.checkSig(m, out, sg, via)
+		if b.TrackActive && via != "restore" {
+			if ks := m.Keysets[sg.ID]; ks != nil {
+				if (ks.ActiveUntil != 0 && o.Seq > ks.ActiveUntil) || o.RetSeq < ks.ActiveFrom {
+					b.Violate("C09.signed_non_active", via, "%s produced a signature on keyset %s which was not active during the request [%d,%d], active window [%d,%d]",
+						via, sg.ID, o.Seq, o.RetSeq, ks.ActiveFrom, ks.ActiveUntil)
+				}
+				b.w.S.Stats["c09_sig_active_checked"]++
+			}
+			if sg.ID != out.ID {
+				b.Violate("C09.sig_other_keyset", via, "output asked for keyset %s, signature is on %s", out.ID, sg.ID)
+			}
+		}
 	}
 	return
+}
+
+// NoteRotation: a rotation started at sequence r0 and is complete now. The previously active
+// keysets may have been active until now, the new one from r0 on.
+func (b *Book) NoteRotation(mint string, r0 int) {
+	m := b.Mint(mint)
+	now := b.w.S.Seq()
+	for _, ks := range m.Keysets {
+		if ks.Active {
+			if ks.ActiveFrom == 0 || ks.ActiveFrom > r0 {
+				if !ks.seenActive {
+					ks.ActiveFrom = r0
+				}
+			}
+			ks.seenActive = true
+		} else if ks.ActiveUntil == 0 {
+			ks.ActiveUntil = now
+		}
+	}
 }
 
 // checkSig: C10 monitor — every blind signature the mint returns is k*B_ for the
@@ -311,6 +357,7 @@ func (b *Book) ingestSwap(o *HTTPObs) {
 	for sec := range seenSec {
 		b.consume(m, sec, req.Inputs, ConsRec{Kind: "swap", Key: key, Seq: o.RetSeq})
 	}
+	b.checkGenuine(m, req.Inputs, "swap")
 	// balance
 	in, ok1 := sumProofs(req.Inputs)
 	fee, ok2 := m.fee(req.Inputs)
@@ -615,7 +662,18 @@ func (b *Book) ingestMelt(o *HTTPObs, resp map[string]any) {
 			b.Violate("C02.melt_under", "melt", "melt paid for quote amount %d reserve %d fee %d with inputs worth only %d", q.Amount, q.Reserve, fee, in)
 		}
 	}
+	if at.Paid && at.State == "PAID" {
+		// acknowledged as paid: the inputs are consumed now (other outcomes are settled in FinalizeMelts)
+		seenS := map[string]bool{}
+		for _, pr := range at.Inputs {
+			if !seenS[pr.Secret] {
+				seenS[pr.Secret] = true
+				b.consume(m, pr.Secret, at.Inputs, ConsRec{Kind: "melt", Key: "melt:" + short(q.ID) + fmt.Sprint(at.Obs.Seq), Seq: at.Obs.Seq})
+			}
+		}
+	}
 	if at.Paid {
+		b.checkGenuine(m, req.Inputs, "melt")
 		seen := map[string]bool{}
 		for _, p := range req.Inputs {
 			if seen[p.Secret] {
@@ -640,8 +698,8 @@ func (b *Book) FinalizeMelts() {
 				}
 				p := b.w.LN.Payments[m.Name+"|"+q.Hash]
 				success := at.State == "PAID" || (p != nil && p.Truth == ptSucceeded)
-				if p != nil && p.Truth == ptInflight {
-					success = true // may still succeed: counts as a live lock
+				if p != nil && p.Truth == ptInflight && at.State != "PAID" {
+					continue // not decided yet; judged once the payment reached its final outcome
 				}
 				if !success {
 					continue
@@ -789,4 +847,18 @@ func (b *Book) internalSettlements(m *MintBook, q *MQRec) int {
 		n = q.Internal
 	}
 	return n
+}
+
+// checkGenuine (C04): an input may be accepted only if its C is k*hash_to_curve(secret) for
+// the key the harness derives itself for exactly the claimed (keyset, amount).
+func (b *Book) checkGenuine(m *MintBook, inputs []JProof, via string) {
+	if !b.w.CheckGenuine {
+		return
+	}
+	for _, p := range inputs {
+		b.w.S.Stats["c04_accepted_checked"]++
+		if ok, why := b.w.GenuineProof(m.Name, p); !ok {
+			b.Violate("C04.forged_accepted", via, "%s accepted an input that is not a genuine signature at its amount (%s): amount %d id %s", via, why, p.Amount, p.ID)
+		}
+	}
 }
